@@ -6,8 +6,13 @@ RULE = ("inputs: generated token streams (keys/operators/values/braces, quoted s
         "@var/@[..], non-ASCII, word lengths straddling 8/9/16 bytes) and byte soups over the significant alphabet (incl. 0x08 0x0b 0xef 0xbb 0xbf); "
         "schedules: every composition of the length for inputs <= 11 bytes, all-1-byte, periodic 2..17, 1- and 2-cut, random; caps from the "
         "just-sufficient size (largest atom + look-ahead) to larger than the input, plus undersized caps; fresh and recycled buffers. "
-        "non-trivial = at least one refill happened inside the input (schedule shorter than the input or cap smaller than it) and a token was produced")
-TRUSTED = ["std::io::Read contract is modelled by BufWin.rd_read (schedule of Data n | Fail events)"]
+        "non-trivial = at least one refill happened inside the input (schedule shorter than the input or cap smaller than it) and a token was produced. "
+        "wave 4 (props/C07_more.py, audit/C07.md): atoms of every kind (quoted/escapes, unquoted, @word, @[..], comment, operator, blank run, BOM probe, truncated tails) sized "
+        "1..33 bytes with caps need-1/need/need+1 under one schedule of every family; ALL 1- and 2-cut schedules of longer inputs; all compositions of targeted short inputs; "
+        "NUL, lone CR, bytes >= 0x80, BOM at every offset; lists of calls next/read/read_bytes with position() after each call and into_parts at the end, on readers built by "
+        "from_slice / new (32 KiB) / buffer_len / a dirty buffer / a buffer recycled from a real previous reader; judged by a python reference tokenizer independent of the model")
+TRUSTED = ["std::io::Read contract is modelled by BufWin.rd_read (schedule of Data n | Fail events)",
+           "props/C07_more.ref_tokenize: python reference tokenizer written from the format (oracle for the from_slice reader and for call lists)"]
 ASSUMPTIONS = ["'the buffer can hold the longest token' is TextRef.need (Coq, extracted; proved tight by C07_stream_eq_slice + C07_stream_full); inputs with a byte >= 256 do not occur"]
 
 
@@ -151,6 +156,11 @@ def run(ctx):
             if T and T[1] != "ERR:101":
                 ctx.fail("undersized-not-bufferfull", "on %r cap=%d < need %d the reader ended with %s instead of BufferFull" % (inp, cap, nd, T[1]), ["tr.slice\t%s" % hexs(inp), cases[k]], [smap[inp], t_impl[tbase + k]], "ERR:101")
     ctx.count("stream_cases", len(cases))
+    # >>> a_c07 (wave 4): remaining entry points, constructions, schedule families, atom kinds -- see audit/C07.md
+    import sys
+    from props import C07_more
+    C07_more.run(ctx, sys.modules[__name__])
+    # <<< a_c07
     shrink(ctx)
 
 
